@@ -44,3 +44,63 @@ def parse(version: int, data: bytes):
 
 
 RESPONSE, CALLBACK = 0x80, 0x90
+
+
+# ----------------------------------------------------------------------------------
+# Hand-written byte encoders for the callbacks the application layer translates.
+# Field ORDER and WIDTHS are written out here from UG100 (pre-v14) and from the EmberZNet
+# 8.x / EZSP v14 release notes (status-first, EUI64 and timestamp added); nothing is taken
+# from bellows' tables, so a swapped field there or in ezsp_callback_handler is not mirrored.
+
+FRAME_INCOMING_MESSAGE = 0x0045
+FRAME_MESSAGE_SENT = 0x003F
+FRAME_TC_JOIN = 0x0024
+FRAME_STACK_STATUS = 0x0019
+
+INCOMING_UNICAST, INCOMING_UNICAST_REPLY, INCOMING_MULTICAST, INCOMING_MULTICAST_LOOPBACK = 0, 1, 2, 3
+INCOMING_BROADCAST, INCOMING_BROADCAST_LOOPBACK, INCOMING_MANY_TO_ONE = 4, 5, 6
+DEVICE_LEFT = 2
+DENY_JOIN = 2
+
+
+def _u16(v):
+    return int(v).to_bytes(2, "little")
+
+
+def _u32(v):
+    return int(v).to_bytes(4, "little")
+
+
+def aps_frame(profile, cluster, src_ep, dst_ep, options, group, sequence) -> bytes:
+    return _u16(profile) + _u16(cluster) + bytes([src_ep & 0xFF, dst_ep & 0xFF]) + _u16(options) + _u16(group) + bytes([sequence & 0xFF])
+
+
+def enc_incoming_message(version, seq, *, mtype, aps, lqi, rssi, sender, binding_index, address_index, message,
+                         eui64=b"\x00" * 8, timestamp=0) -> bytes:
+    rssi_b = int(rssi).to_bytes(1, "little", signed=True)
+    body = bytes([mtype]) + aps
+    if version >= 14:
+        body += _u16(sender) + bytes(eui64) + bytes([binding_index, address_index, lqi]) + rssi_b + _u32(timestamp)
+    else:
+        body += bytes([lqi]) + rssi_b + _u16(sender) + bytes([binding_index, address_index])
+    body += bytes([len(message)]) + bytes(message)
+    return header(version, seq, FRAME_INCOMING_MESSAGE, CALLBACK) + body
+
+
+def enc_message_sent(version, seq, *, mtype, destination, aps, tag, status, message=b"") -> bytes:
+    if version >= 14:
+        body = _u32(status) + bytes([mtype]) + _u16(destination) + aps + _u16(tag)
+    else:
+        body = bytes([mtype]) + _u16(destination) + aps + bytes([tag & 0xFF, status & 0xFF])
+    body += bytes([len(message)]) + bytes(message)
+    return header(version, seq, FRAME_MESSAGE_SENT, CALLBACK) + body
+
+
+def enc_tc_join(version, seq, *, nwk, eui64, status, decision, parent) -> bytes:
+    body = _u16(nwk) + bytes(eui64) + bytes([status, decision]) + _u16(parent)
+    return header(version, seq, FRAME_TC_JOIN, CALLBACK) + body
+
+
+def enc_stack_status(version, seq, status) -> bytes:
+    body = _u32(status) if version >= 14 else bytes([status & 0xFF])
+    return header(version, seq, FRAME_STACK_STATUS, CALLBACK) + body
